@@ -283,6 +283,72 @@ def df_kind(cls):
     return "attribute"
 
 
+def _returns_kind(cls, fn, what):
+    node = fn_ast(fn)
+    kinds = set()
+    for sub in ast.walk(node):
+        if isinstance(sub, ast.Return) and sub.value is not None:
+            v = sub.value
+            if isinstance(v, ast.Constant) and v.value is None:
+                continue
+            if isinstance(v, ast.Call) and isinstance(v.func, ast.Attribute) and v.func.attr in ("copy", "deepcopy"):
+                kinds.add("copy")
+            elif is_self_attr(v) or isinstance(v, ast.Name):
+                kinds.add("alias")
+            else:
+                raise Unrecognised("%s.%s returns %s" % (cls.__name__, what, ast.unparse(v)))
+    if kinds == {"copy"}:
+        return "copy"
+    if "alias" in kinds:
+        return "alias"
+    raise Unrecognised("%s.%s: no return recognised" % (cls.__name__, what))
+
+
+def frame_accessors(cls):
+    """every public attribute / property of a data class through which a frame is handed out (named df or *_df, or
+    annotated as returning a DataFrame / Series), with the way it hands out:
+       'copy'      a property whose every return is <...>.copy()
+       'alias'     a property returning a stored frame itself
+       'cached'    functools.cached_property (whatever it returns is built once and then handed out again and again)
+       'attribute' a plain instance attribute set in __init__
+    plus the public properties that are not frame-valued by that criterion (listed in the evidence)"""
+    import functools
+    out, other = {}, []
+
+    def frame_name(n, fn=None):
+        if n == "df" or n.endswith("_df"):
+            return True
+        ann = str(getattr(fn, "__annotations__", {}).get("return", "")) if fn is not None else ""
+        return "DataFrame" in ann or "Series" in ann
+
+    for k in cls.__mro__:
+        if k is object:
+            continue
+        for n, v in k.__dict__.items():
+            if n.startswith("_") or n in out:
+                continue
+            if isinstance(v, property):
+                if frame_name(n, v.fget):
+                    out[n] = _returns_kind(cls, v.fget, n)
+                else:
+                    other.append(n)
+            elif isinstance(v, functools.cached_property):
+                if frame_name(n, v.func):
+                    out[n] = "cached"
+                else:
+                    other.append(n)
+            elif not callable(v) and not isinstance(v, (classmethod, staticmethod)) and frame_name(n):
+                raise Unrecognised("%s.%s is a class-level %s" % (cls.__name__, n, type(v).__name__))
+    for k in cls.__mro__:
+        if "__init__" in k.__dict__ and k is not object:
+            for sub in ast.walk(fn_ast(k.__dict__["__init__"])):
+                if isinstance(sub, (ast.Assign, ast.AnnAssign)):
+                    for t in (sub.targets if isinstance(sub, ast.Assign) else [sub.target]):
+                        if is_self_attr(t) and not t.attr.startswith("_") and frame_name(t.attr) and t.attr not in out:
+                            out[t.attr] = "attribute"
+    return out, sorted(set(other))
+
+
 def fit_copies(cls):
     """are data.warnings / data.disqualification copied when fit() takes them over"""
     node = fn_ast(next(k for k in cls.__mro__ if "fit" in k.__dict__).__dict__["fit"])
@@ -433,8 +499,12 @@ def flags():
             fsn = fn_ast(fs_owner.__dict__["from_series"])
             for p in [a.arg for a in fsn.args.args][1:3]:
                 sw += arg_writes(cls, fs_owner, "from_series", p)
+        acc, other_props = frame_accessors(cls)
+        if "df" not in acc:
+            raise Unrecognised("%s has no frame accessor `df`" % name)
         out["classes"][tag] = {"python": name, "init_writes_arg": bool(iw), "series_writes_arg": bool(sw),
-                               "df": df_kind(cls), "init_writes": iw, "series_writes": sw}
+                               "df": acc["df"], "accessors": acc, "other_public_properties": other_props,
+                               "init_writes": iw, "series_writes": sw}
     return out
 
 
@@ -456,8 +526,12 @@ def coq_text(fl):
     rows = []
     for tag, name in CLASSES:
         c = fl["classes"][tag]
-        rows.append("  (%s, {| init_writes_arg := %s; series_writes_arg := %s; df_is_copy := %s |})  (* %s *)" % (
-            tag, b(c["init_writes_arg"]), b(c["series_writes_arg"]), b(c["df"] == "copy"), name))
+        acc = c["accessors"]
+        others = [k for n, k in acc.items() if n not in ("df", "billing_df")]
+        rows.append("  (%s, {| init_writes_arg := %s; series_writes_arg := %s;\n        handout_copies := fun a => match a with ADf => %s | ABillingDf => %s | AOther => %s end |})  (* %s: %s *)" % (
+            tag, b(c["init_writes_arg"]), b(c["series_writes_arg"]), b(acc["df"] == "copy"),
+            b(acc.get("billing_df", "copy") == "copy"), b(all(k == "copy" for k in others)), name,
+            ", ".join("%s %s" % (n, k) for n, k in sorted(acc.items()))))
     lines.append(";\n".join(rows))
     lines.append("].")
     lines.append("")
